@@ -73,6 +73,9 @@ def _call(env, scn):
     cfg = dict(scn.get("cfg", {}))
     if "fail_on" in cfg:
         cfg["serde"] = FailingSerde(cfg.pop("fail_on"))
+    if "client_class" in cfg:
+        from vlib import subclasses
+        cfg["client_class"] = subclasses.CLIENT_CLASSES[cfg["client_class"]]
     c = env.client(scn.get("kind", "client"), **cfg)
     r = scn["op"]
     # optional history: earlier calls on the SAME client object, delivered unsplit in both runs (their replies are
@@ -278,6 +281,18 @@ def corpus(sizes=(0, 1, 4090, 4094, 4095, 4096, 4097, 4098, 8190, 8192, 8194, 10
                     out.append(S({"op": "gets_many", "keys": ["c", "b", "a"]}, three, cfg=dict(cfg, key_prefix=b"p:")))
                     out.append(S({"op": "get", "key": bad}, three, cfg=cfg))
                     out.append(S({"op": "get_many", "keys": ["a", "b", "c"]}, three, cfg=cfg, history=[{"op": "get", "key": bad}]))
+    # a Client subclass that overrides the documented extension point _extract_value (every value comes back with its flags),
+    # used directly and as the client_class of the pooled and hash stacks: what it adds must not depend on the segmentation
+    for kind in ("client", "pooled", "hash", "hash-pooled"):
+        for how in ("assign", "classattr"):
+            cfg = {"client_class": "flags", "client_class_how": how}
+            out.append(S({"op": "get", "key": "c"}, three, cfg=cfg, kind=kind))
+            out.append(S({"op": "gets", "key": "b"}, three, cfg=cfg, kind=kind))
+            out.append(S({"op": "get_many", "keys": ["a", "b", "c"]}, three, cfg=cfg, kind=kind))
+            if kind in ("client", "pooled"):
+                out.append(S({"op": "gets_many", "keys": ["c", "zz", "a"]}, three, cfg=dict(cfg, key_prefix=b"p:"), kind=kind))
+                out.append(S({"op": "gat", "key": "c", "expire": 5}, three, cfg=cfg, kind=kind))
+                out.append(S({"op": "get", "key": "big"}, [(b"big", b"x" * 5000, 7)], cfg=cfg, kind=kind))
     # several commands sent through one raw_command: the reply starts with a one-line answer (STORED, DELETED, OK, TOUCHED,
     # a number ...) and goes on until the end token of the last command
     out.append(S({"op": "raw_command", "command": b"set k 0 0 1\r\nv\r\nget k", "end": b"END\r\n"}, [], expect=b"STORED\r\nVALUE k 0 1\r\nv\r\n"))
